@@ -13,7 +13,44 @@ def _txt(c):
 def conditions(fn, nodes=False):
     """nodes=True: the stacks hold the normalised condition ASTs instead of their text."""
     out = {}
-    _txt = (lambda c: normal.norm_cond(c)) if nodes else globals()['_txt']
+    _txt0 = (lambda c: normal.norm_cond(c)) if nodes else globals()['_txt']
+    # flag locals (`const int restore = (r->exact_finish_time==1);`, never assigned again) stand for their initialiser
+    import copy as _copy
+    flags = {}
+    assigned = set()
+    for x in cfront.walk(cfront.body(fn)):
+        if cfront.is_assign(x) or (x.get('kind') == 'UnaryOperator' and x.get('opcode') in ('++', '--')):
+            l0 = cfront.strip(x['inner'][0])
+            if l0.get('kind') == 'DeclRefExpr':
+                assigned.add(l0['referencedDecl'].get('id'))
+    for d in cfront.walk(cfront.body(fn)):
+        if d.get('kind') == 'VarDecl' and 'init' in d and d.get('id') not in assigned and ('int' in cfront.qtype(d) or 'Bool' in cfront.qtype(d)) and '*' not in cfront.qtype(d):
+            init = [c for c in d.get('inner', []) if c.get('kind') not in ('FullComment',)]
+            if init:
+                i0 = cfront.strip(init[-1], casts=True)
+                if (i0.get('kind') == 'BinaryOperator' and i0.get('opcode') in ('==', '!=', '<', '>', '<=', '>=', '&&', '||')) or (i0.get('kind') == 'UnaryOperator' and i0.get('opcode') == '!'):
+                    flags[d.get('id')] = init[-1]
+
+    def expand(c, depth=0):
+        if not flags or depth > 4 or not isinstance(c, dict):
+            return c
+        if not any(x.get('kind') == 'DeclRefExpr' and x.get('referencedDecl', {}).get('id') in flags for x in cfront.walk(c)):
+            return c
+        c = _copy.deepcopy(c)
+        wrapper = {'kind': 'ParenExpr', 'inner': [c]}
+
+        def sub(n):
+            for idx, ch in enumerate(n.get('inner', []) or []):
+                if isinstance(ch, dict):
+                    if ch.get('kind') == 'DeclRefExpr' and ch.get('referencedDecl', {}).get('id') in flags:
+                        n['inner'][idx] = {'kind': 'ParenExpr', 'type': ch.get('type', {}), 'inner': [expand(flags[ch['referencedDecl']['id']], depth + 1)]}
+                    else:
+                        sub(ch)
+        sub(wrapper)
+        return wrapper['inner'][0]
+
+    def _txt(c):
+        return _txt0(expand(c))
 
     def exits(st):
         """does this statement (a then-branch) always leave the enclosing list?"""
